@@ -88,7 +88,7 @@ class Minimiser:
         for op in ops:
             if op_module(op) == mid:
                 continue
-            if op[0] in ("inst", "arr", "pair") and op[3][0] == "mod" and op[3][1] == mid:
+            if op[0] in ("inst", "arr", "pair", "reinst") and op[3][0] == "mod" and op[3][1] == mid:
                 dropped_insts.setdefault(op[1], set()).add(op[2])
                 continue
             if op[0] in ("elaborate", "to_proto", "netlist"):
